@@ -29,12 +29,34 @@ func hx(b []byte) string {
 
 func u64(s string) uint64 { v, _ := strconv.ParseUint(s, 10, 64); return v }
 
-func encScript(script string) (*ofbase.Encoder, []string) {
+var brtRun func(a []string, shared bool) string
+
+func encScript(script string) (*ofbase.Encoder, []string) { return encScriptShared(script, false) }
+
+// encScriptShared: with shared = true every raw write hands the encoder a sub-slice of ONE caller-owned array holding
+// all raw chunks back to back (each chunk's spare capacity is the next chunks), and that array is overwritten once the
+// script is done: what was written must not depend on the caller's memory afterwards
+func encScriptShared(script string, shared bool) (*ofbase.Encoder, []string) {
 	e := ofbase.NewEncoder()
 	var toks []string
 	if script != "." {
 		toks = strings.Split(script, ",")
 	}
+	var pool []byte
+	if shared {
+		for _, t := range toks {
+			if p := strings.Split(t, ":"); p[0] == "r" {
+				pool = append(pool, unhex(p[1])...)
+			}
+		}
+		pool = append(pool, 0xc1, 0xc2, 0xc3, 0xc4, 0xc5, 0xc6, 0xc7, 0xc8) // spare room behind the last chunk
+		defer func() {
+			for i := range pool {
+				pool[i] = 0xee
+			}
+		}()
+	}
+	off := 0
 	for _, t := range toks {
 		p := strings.Split(t, ":")
 		switch p[0] {
@@ -51,7 +73,13 @@ func encScript(script string) (*ofbase.Encoder, []string) {
 		case "x":
 			e.PutUint128(ofbase.Uint128{Hi: u64(p[1]), Lo: u64(p[2])})
 		case "r":
-			e.Write(unhex(p[1]))
+			if shared {
+				n := len(unhex(p[1]))
+				e.Write(pool[off : off+n])
+				off += n
+			} else {
+				e.Write(unhex(p[1]))
+			}
 		}
 	}
 	return e, toks
@@ -69,8 +97,10 @@ func init() {
 		e, _ := encScript(a[0])
 		return hx(e.Bytes())
 	}
-	runners["brt"] = func(a []string) string {
-		e, toks := encScript(a[0])
+	runners["brta"] = func(a []string) string { return brtRun(a, true) }
+	runners["brt"] = func(a []string) string { return brtRun(a, false) }
+	brtRun = func(a []string, shared bool) string {
+		e, toks := encScriptShared(a[0], shared)
 		n := len(e.Bytes())
 		buf := append(append([]byte{}, e.Bytes()...), unhex(a[1])...)
 		_ = n
@@ -308,6 +338,25 @@ func init() {
 			c.run("bhdr", hx(b), c.rng.Intn(len(b)+1))
 		}
 		// raw decoder scripts incl. short buffers, spare capacity, nested slicing up to depth 4
+		// raw writes from ONE caller-owned array (the first write on an empty encoder included), overwritten afterwards
+		for i := 0; i < 400; i++ {
+			var ts []string
+			for j := 1 + c.rng.Intn(6); j > 0; j-- {
+				k := []string{"r", "r", "r", "h", "w", "b", "q"}[c.rng.Intn(7)]
+				if len(ts) == 0 && c.rng.Intn(3) > 0 {
+					k = "r"
+				}
+				if k == "r" {
+					n := 1 + c.rng.Intn(12)
+					b := make([]byte, n)
+					c.rng.Read(b)
+					ts = append(ts, "r:"+hx(b))
+				} else {
+					ts = append(ts, rv(k))
+				}
+			}
+			c.run("brta", strings.Join(ts, ","), "-")
+		}
 		// a header (or the remaining length) asked for when the position is at, near or PAST the end of the data: the
 		// data is consumed entirely, an alignment skip / a skip moves past the end, then Length() and Header.Decode
 		for n := 0; n <= 40; n++ {
